@@ -108,8 +108,9 @@ fn qgen() -> impl Strategy<Value = QGen> {
         any::<bool>(),
         any::<bool>(),
         any::<bool>(),
-        prop_oneof![2 => Just(0u8), 1 => 1u8..=3],
-        prop_oneof![2 => Just(None), 1 => (0u8..=4).prop_map(Some)],
+        // 250..=255 stand for u64::MAX-5 ..= u64::MAX (offset + limit then exceeds 64 bits)
+        prop_oneof![20 => Just(0u8), 10 => 1u8..=3, 1 => 250u8..=255],
+        prop_oneof![20 => Just(None), 10 => (0u8..=4).prop_map(Some), 2 => (250u8..=255).prop_map(Some)],
     )
         .prop_map(|(latest, author, keyf, by_key, desc, include_empty, offset, limit)| QGen {
             latest,
@@ -121,6 +122,15 @@ fn qgen() -> impl Strategy<Value = QGen> {
             offset,
             limit,
         })
+}
+
+/// Small values as they are; 250..=255 stand for the six greatest 64-bit values.
+fn wide(v: u8) -> u64 {
+    if v >= 250 {
+        u64::MAX - (255 - v) as u64
+    } else {
+        v as u64
+    }
 }
 
 fn transform(k: &[u8], t: u8) -> Vec<u8> {
@@ -188,8 +198,8 @@ pub fn resolve_with(q: &QGen, authors: &[u8], keys: &[Vec<u8>], raw: bool) -> Re
         by_key: q.by_key,
         desc: q.desc,
         include_empty: q.include_empty,
-        offset: q.offset as u64,
-        limit: q.limit.map(|l| l as u64),
+        offset: wide(q.offset),
+        limit: q.limit.map(wide),
     }
 }
 
